@@ -40,7 +40,7 @@ def gen_cases(tier, seed):
         start = int(rng.integers(step))
         sel = prod[start::step]
     else:
-        idx = rng.choice(len(g) * len(g), 1500, replace=False)
+        idx = rng.choice(len(g) * len(g), 4000, replace=False)
         sel = [(g[int(i) // len(g)], g[int(i) % len(g)]) for i in idx]
     for n, (a, b) in enumerate(sel):
         cases.append({"H": a[0], "W": b[0], "k": [a[1], b[1]], "s": [a[2], b[2]], "p": [a[3], b[3]], "d": [a[4], b[4]],
